@@ -112,6 +112,7 @@ EXPRS = [
     ('R.acp(x)', lambda R, x: R.acp(x)), ('R | x', lambda R, x: R | x), ('R ^ x', lambda R, x: R ^ x), ('x @ R', lambda R, x: x @ R),
     ('R & x', lambda R, x: R & x), ('R.lc(x)', lambda R, x: R.lc(x)), ('(R | x) * R', lambda R, x: (R | x) * R),
     ('R * x * ~R + x', lambda R, x: R * x * ~R + x), ('~x', lambda R, x: ~x), ('x.hodge()', lambda R, x: x.hodge()),
+    ('(R * x) / 2', lambda R, x: (R * x) / 2), ('R * x / 4 + x', lambda R, x: R * x / 4 + x), ('0.5 * (R >> x)', lambda R, x: 0.5 * (R >> x)),
 ]
 
 
@@ -128,7 +129,7 @@ def expr_pass(ctx, np, sympy, expr_as_matrix):
             if 'hodge' in name and 0 not in sig and d != 3:
                 pass
             for xkeys in (g1, rng.sample(full, min(len(full), 3))):
-                for mode in ('symbolic', 'numeric', 'array', 'res_like'):
+                for mode in ('symbolic', 'numeric', 'numeric-int', 'numeric-fraction', 'array', 'res_like'):
                     if ctx.quick and rng.random() < 0.35:
                         continue
                     Rkeys = even if rng.random() < 0.6 else rng.sample(full, min(len(full), 3))
@@ -136,6 +137,11 @@ def expr_pass(ctx, np, sympy, expr_as_matrix):
                         R = alg.multivector(name='R', keys=tuple(Rkeys))
                     elif mode == 'numeric':
                         R = MultiVector.fromkeysvalues(alg, tuple(Rkeys), [float(rng.randint(-3, 4)) for _ in Rkeys])
+                    elif mode == 'numeric-int':         # python ints: the entries of A need not be integers
+                        R = MultiVector.fromkeysvalues(alg, tuple(Rkeys), [rng.choice((1, 2, 3, -1, 5)) for _ in Rkeys])
+                    elif mode == 'numeric-fraction':
+                        from fractions import Fraction
+                        R = MultiVector.fromkeysvalues(alg, tuple(Rkeys), [Fraction(rng.randint(-3, 4), rng.choice((1, 2, 3))) for _ in Rkeys])
                     else:
                         R = MultiVector.fromkeysvalues(alg, tuple(Rkeys), [np.array([float(rng.randint(-3, 4)), float(rng.randint(1, 3))]) for _ in Rkeys])
                     x = alg.multivector(name='x', keys=tuple(xkeys))
@@ -155,7 +161,7 @@ def expr_pass(ctx, np, sympy, expr_as_matrix):
                         A, y = expr_as_matrix(f, R, x, **kw)
                     except Exception as e:
                         ctx.count('expr-raises:' + type(e).__name__)
-                        if mode in ('symbolic', 'numeric', 'res_like'):
+                        if mode in ('symbolic', 'numeric', 'numeric-int', 'res_like'):
                             ctx.violation('expr-raises', case, 'A, y', repr(e)[:200], key=f'expr:raises:{mode}:{type(e).__name__}')
                         continue
                     try:
